@@ -1,8 +1,103 @@
 import JrsVerif.Common.J
+import JrsVerif.Model.Pratt
+import JrsVerif.Model.Unescape
 
 namespace JrsVerif.Drv.C06
-open Lean JrsVerif.J
+open Lean JrsVerif.J JrsVerif.Generated JrsVerif.Pratt
 
-def handle (_op : String) (_j : Json) : Option Json := none
+def binName : BinOp → String
+  | .Mul => "Mul" | .Div => "Div" | .Mod => "Mod" | .Add => "Add" | .Sub => "Sub" | .Lhs => "Lhs"
+  | .Rhs => "Rhs" | .Lt => "Lt" | .Gt => "Gt" | .Lte => "Lte" | .Gte => "Gte" | .BitAnd => "BitAnd"
+  | .BitOr => "BitOr" | .BitXor => "BitXor" | .Eq => "Eq" | .Neq => "Neq" | .And => "And"
+  | .Or => "Or" | .In => "In"
+
+def unName : UnOp → String
+  | .Plus => "Plus" | .Minus => "Minus" | .BitNot => "BitNot" | .Not => "Not"
+
+/-- `binary_op(p)` of the IR parser: token text -> operator -/
+def binTok : String → Option BinOp
+  | "||" => some .Or | "&&" => some .And | "|" => some .BitOr | "^" => some .BitXor
+  | "&" => some .BitAnd | "==" => some .Eq | "!=" => some .Neq | "<" => some .Lt | ">" => some .Gt
+  | "<=" => some .Lte | ">=" => some .Gte | "<<" => some .Lhs | ">>" => some .Rhs | "+" => some .Add
+  | "-" => some .Sub | "*" => some .Mul | "/" => some .Div | "%" => some .Mod | "in" => some .In
+  | _ => none
+
+def isAtomText (s : String) : Bool :=
+  !s.isEmpty && s.toList.all (fun c => c.isAlphanum || c == '_')
+
+/-- tokens of the fragment; atoms are numbered by position in `texts` -/
+def toToks (texts : List String) : Option (List Tok) :=
+  let rec go (i : Nat) : List String → Option (List Tok)
+    | [] => some []
+    | s :: r => do
+      let t ← (match s with
+        | "(" => some Tok.lpar
+        | ")" => some Tok.rpar
+        | "!" => some Tok.bang
+        | "~" => some Tok.tilde
+        | _ => match binTok s with
+          | some o => some (Tok.bin o)
+          | none => if isAtomText s then some (Tok.atom i) else none)
+      let rest ← go (i + 1) r
+      pure (t :: rest)
+  go 0 texts
+
+partial def showAst (texts : Array String) : Ast → String
+  | .atom n => texts.getD n "?"
+  | .un u e => s!"({unName u} {showAst texts e})"
+  | .bin o l r => s!"({binName o} {showAst texts l} {showAst texts r})"
+
+def showRes (texts : Array String) : Option Ast → String
+  | none => "reject"
+  | some e => showAst texts e
+
+def cps (a : Array Json) : List Nat := nats a
+
+def showOut : Option (List Nat) → Json
+  | none => .null
+  | some l => ofNats l
+
+def handle (op : String) (j : Json) : Option Json :=
+  match op with
+  | "c06.agree" =>
+    match str? j "ir", str? j "peg", val? j "rowan" with
+    | some ir, some peg, some rowan =>
+      let acc := ir != "reject"
+      let rowanOk := match rowan with | .bool b => b | _ => false
+      let baseOk := match str? j "base" with | some b => b == ir | none => true
+      let noPanic := !(ir.startsWith "panic") && !(peg.startsWith "panic") &&
+        (acc == false || (match rowan with | .bool _ => true | _ => false))
+      some (obj [("observed", .bool (ir == peg && rowanOk == acc && baseOk && noPanic))])
+    | _, _, _ => some (bad "c06.agree: parse")
+  | "c06.pratt" =>
+    match arr? j "toks", str? j "via" with
+    | some a, some via =>
+      let texts := strs a
+      match toToks texts with
+      | none => some (bad "c06.pratt: token outside the fragment")
+      | some ts =>
+        let T := if via == "peg" then pegTable else irTable
+        let ta := texts.toArray
+        let m := showRes ta (parse T ts)
+        let s := showRes ta (parse JrsVerif.Spec.table ts)
+        match str? j "want" with
+        | some w =>
+          if w != s then some (bad s!"c06.pratt: reference parser gives {s}, generator wanted {w}")
+          else if (bool? j "minimal").getD false &&
+              !(match parse JrsVerif.Spec.table ts with
+                | some e => decide (JrsVerif.Spec.print e = ts) | none => false) then
+            some (bad s!"c06.pratt: Spec.print of the tree differs from the generator's minimal-parenthesis rendering")
+          else
+            some (obj [("model", obj [("ast", .str m)]), ("spec", obj [("ast", .str s)])])
+        | none => some (obj [("model", obj [("ast", .str m)]), ("spec", obj [("ast", .str s)])])
+    | _, _ => some (bad "c06.pratt: parse")
+  | "c06.unescape" =>
+    match arr? j "s" with
+    | some a =>
+      let s := cps a
+      some (obj [("model", obj [("out", showOut (JrsVerif.Unescape.unescape s))]),
+                 ("spec", obj [("out", showOut (JrsVerif.Spec.decode s))])])
+    | none => some (bad "c06.unescape: parse")
+  | _ => none
 
 end JrsVerif.Drv.C06
